@@ -146,6 +146,58 @@ def cpp_task(control, cal, max_dt, K, tier, seed, nread=0):
     return part.d
 
 
+CFG_MAIN = r"""
+int main(int argc, char** argv) {
+  vsym::init(argv[1]);
+  vsym::out("cfg_max_dt", S(gen::ExtendedKalmanFilter::Tag::max_dt_sec));
+  using MF = formak::runtime::ManagedFilter<gen::ExtendedKalmanFilter>;
+  vsym::out("compatible", S(MF::compatible ? 1.0 : 0.0));
+  vsym::finish();
+}
+"""
+
+
+def cfg_task(max_dt, tier, seed):
+    """'for any configured maximum step': the step the C++ runtime uses is the generated Tag::max_dt_sec, which must be
+    exactly the configured double (and positive, so that the compatibility check passes)."""
+    from corpus import programs as CP
+
+    from .cpph import CppFilter
+
+    part = Part()
+    part.program("P1-xy")
+    part.fn("cpp.Config.ccode", "ast_fragments.EKF_Tag", "ManagedFilter::compatible")
+    p = CP.P1()
+    key = f"cpp/configured-max_dt={max_dt!r}"
+    try:
+        cf = CppFilter(p, ekf=True, cse=True, k=None, max_dt=max_dt, extra_body=CFG_MAIN, extra_includes=["#include <formak/runtime/ManagedFilter.h>"])
+        cf.__enter__()
+    except Exception as ex:
+        path = write_replay(PID, {"key": "cpp/config/generation", "info": {"kind": "cpp-config", "max_dt": max_dt}, "inputs": {}, "exception": f"{type(ex).__name__}: {ex}"})
+        part.violation("cpp/config/generation", f"generation with max_dt_sec={max_dt!r} raises {type(ex).__name__}: {ex}", path)
+        return part.d
+    try:
+        try:
+            cf.compile_symbolic()
+        except build.BuildError as ex:
+            part.harness_error(f"{key}: build failed: {ex.log[-500:]}")
+            return part.d
+        leaves, _ = cf.run("")
+        l = leaves[0]
+        got = z3.simplify(l.out["cfg_max_dt"])
+        gv = got.numerator_as_long() / got.denominator_as_long() if z3.is_rational_value(got) else None
+        comp = z3.simplify(l.out["compatible"])
+        ok = gv == float(max_dt) and z3.is_rational_value(comp) and comp.numerator_as_long() == 1
+        part.record(Q("unsat" if ok else "sat", None, 0.0, ""), f"{key}: generated Tag::max_dt_sec == configured value, runtime compatible")
+        if not ok:
+            path = write_replay(PID, {"key": "cpp/config/max_dt", "info": {"kind": "cpp-config", "max_dt": max_dt}, "inputs": {}, "generated": gv})
+            part.violation("cpp/config/max_dt", f"the C++ runtime would step with max_dt_sec={gv!r} although {max_dt!r} was configured", path)
+    finally:
+        cf.__exit__(None, None, None)
+    part.sample({"impl": "c++ config", "configured": max_dt})
+    return part.d
+
+
 def tasks(tier, seed):
     if tier == "quick":
         combos = [(True, True, 0.1), (False, False, 0.5), (True, False, 0.1), (False, True, 0.1)]
@@ -155,6 +207,8 @@ def tasks(tier, seed):
         K = 4
     t = [(cpp_task, (c, k, m, K, tier, seed)) for c, k, m in combos]
     t += [(cpp_task, (True, True, 0.1, 1, tier, seed, 1)), (cpp_task, (False, False, 0.25, 1, tier, seed, 1))]
+    for md in ([1.0 / 3.0, 1.25e-5] if tier == "quick" else [1.0 / 3.0, 1.25e-5, 2.0 / 3.0, 4.5e-6, 2.5e-7, 1e-9, 0.0125]):
+        t.append((cfg_task, (md, tier, seed)))
     if tier != "quick":
         t += [(cpp_task, (True, False, 0.05, 2, tier, seed, 1)), (cpp_task, (False, True, 0.5, 2, tier, seed, 1))]
     return t
@@ -164,6 +218,10 @@ def replay(r):
     from .c10 import violates_legs
 
     info = r["info"]
+    if info["kind"] == "cpp-config":
+        d = cfg_task(info["max_dt"], "quick", 0)
+        print(d["violations"])
+        return 1 if d["violations"] else 0
     if info["kind"] == "cpp-compile":
         d = build.workdir("c10r")
         try:
